@@ -1214,6 +1214,64 @@ func scenarioQueuedReplicateAndTruncation(r *vh.Rand) (string, []string) {
 	return g.c.Header(), g.ops
 }
 
+// scenario 21: a voter is removed under a stable leader; afterwards the leader pipelines
+// proposals while the remaining follower acknowledges with a lag (one acknowledgement per
+// round, always behind the leader's last index).
+func scenarioCommitAfterShrink(r *vh.Rand) (string, []string) {
+	g := newScenarioGen(r, 3, uint64(6+r.Intn(3)), false, false)
+	if !g.elect(1, nil) {
+		return g.c.Header(), g.ops
+	}
+	g.propose(1)
+	g.settle(nil)
+	g.nextKey++
+	g.cc(1, uint64(pb.RemoveNode), 3)
+	g.update(1)
+	g.settle(nil)
+	for _, k := range g.liveIDs() {
+		g.update(k)
+		g.apply(k, 100)
+	}
+	g.settle(nil)
+	for i := 0; i < 2 && !g.Stopped; i++ {
+		g.do("T 1")
+		g.update(1)
+		g.settle(nil)
+		for _, k := range g.liveIDs() {
+			g.update(k)
+			g.apply(k, 100)
+		}
+	}
+	// pipelined proposals; follower 2 lags: one Replicate and one acknowledgement at a time
+	pair := only(1, 2)
+	for i := 0; i < 5 && !g.Stopped; i++ {
+		g.propose(1)
+		g.propose(1)
+		one := func(t pb.MessageType) {
+			// the oldest one first: messages between the two stay in order
+			best := -1
+			for j, m := range g.Pool {
+				if pair(m) && m.Type == t && (best < 0 || m.LogIndex < g.Pool[best].LogIndex) {
+					best = j
+				}
+			}
+			if best >= 0 {
+				m := g.Pool[best]
+				g.Deliver(best, false, false, nil)
+				if !g.Stopped {
+					g.update(m.To)
+				}
+			}
+		}
+		one(pb.Replicate)
+		one(pb.ReplicateResp)
+		g.update(1)
+		g.apply(1, 100)
+	}
+	g.settle(pair)
+	return g.c.Header(), g.ops
+}
+
 var scenarios = []func(r *vh.Rand) (string, []string){
 	scenarioTransferWithUnappliedChange,
 	scenarioVoteRace, scenarioTransferRemove, scenarioDeposedLeaderRead, scenarioDelayedConfirmation,
@@ -1222,5 +1280,5 @@ var scenarios = []func(r *vh.Rand) (string, []string){
 	scenarioNewMemberMostUpToDate, scenarioCandidateGetsSnapshot, scenarioSnapshotReportedButLost,
 	scenarioUnappliedChangesAndTimeout, scenarioRestartedLeaderPendingChange, scenarioStaleHigherTermReplica,
 	scenarioOnlyFullMemberRead, scenarioMatchingSnapshotBehindLog, scenarioSnapshotWithoutWitness,
-	scenarioQueuedReplicateAndTruncation,
+	scenarioQueuedReplicateAndTruncation, scenarioCommitAfterShrink,
 }
